@@ -35,7 +35,7 @@ CHECKS = {
          "Linearity, scaling and byte-column relations evaluated on packets of related inputs for every symbol size 1..200 and larger sizes, several K, both plan routes and multi-block objects.",
          "3.C09"),
  "C10": ("exhaustive enumeration against the field built from the polynomial",
-         "Finite domain enumerated completely on every run: all 65 536 operand pairs for every operator and table, all 256^3 triples for the field laws, all exponents; also run under Miri by the C12 check.",
+         "Finite domain enumerated completely on every run: all 65 536 operand pairs for every operator and table, all 256^3 triples for the field laws, all exponents; run in the release build and again with debug assertions and overflow checks on; also run under Miri by the C12 check.",
          "3.C10"),
  "C11": ("kernel output vs element-wise reference, every ISA, with canaries",
          "Every private SIMD/portable kernel (exposed by a hook) and the public dispatchers are called for every length 0..320, 64x8 alignment pairs and all scalars; results compared byte-for-byte with the element-wise reference, source and canaries must be untouched.",
@@ -56,7 +56,7 @@ CHECKS = {
          "Generated admissible operation sequences (construction, indexed solver-like phase, un-indexed phase) applied to both implementations and a {0,1,undefined} bit-array model; every query answer compared; run in release and in the checked build where the crate's own debug assertions act as extra monitors.",
          "3.C16"),
  "C17": ("controlled-schedule enumeration + stress with cache-invariant snapshots (TSan/Miri in thorough)",
-         "A turnstile at a yield hook between the two critical sections enumerates every order of lookup/insert sections for 2 and 3 concurrent requests across cache states; after every section a snapshot (taken under the cache's own lock) is compared with a sequential FIFO model and the invariant; all returned encoders compared with uncached ones; plus 16-thread stress with injected delays.",
+         "A turnstile at a yield hook between the two critical sections enumerates every order of lookup/insert sections for 2 and 3 concurrent requests across cache states; after every section a snapshot (taken under the cache's own lock) must satisfy the invariant (|map| = |order| <= capacity, same keys, right plan under every key; deviations from a sequential FIFO model are recorded as observations only); all returned encoders compared with uncached ones; plus 16-thread stress with injected delays, hot-cache histories and an eviction of a plan that is in use.",
          "3.C17"),
  "C18": ("window/overlap/plan-interchange relations on real output",
          "Relations between repair windows and single requests (exhaustive small windows, random windows up to the last ESI), equality of encoders from different plan instances, and ordering/distinctness of the per-object packet list.",
